@@ -38,9 +38,22 @@ def main():
         w, note = check(build(inp['expr1']), inp['op'], build(inp['expr2']))
         if w is None:
             # the solver's candidate relies on the abstract contract of simplify; try the canonical witness
-            w2, note2 = check(var('n'), inp['op'], var('m'))
+            from loki.expression import symbols as sym
+            n, m = var('n'), var('m')
+            one = sym.IntLiteral(1)
+            pool = [n, m, sym.IntLiteral(0), one, sym.IntLiteral(2), sym.Sum((n, one)), sym.Sum((n, sym.Product((-1, n)), one)),
+                    sym.Product((2, n)), sym.Sum((n, sym.Product((-1, one)))), sym.Product((-1, n))]
+            w2, note2, wit = None, None, None
+            for a in pool:
+                for b in pool:
+                    w2, note2 = check(a, inp['op'], b)
+                    if w2 is not None:
+                        wit = 'symbolic_op(%s, %s, %s)' % (a, inp['op'], b)
+                        break
+                if w2 is not None:
+                    break
             out = {'reproduced': w2 is not None, 'observed': w2 or note2, 'candidate': note,
-                   'witness_input': 'symbolic_op(n, %s, m)' % inp['op']}
+                   'witness_input': wit or 'none in the 10x10 pool'}
         else:
             out = {'reproduced': True, 'observed': w}
     except Exception as ex:        # pylint: disable=broad-except
